@@ -25,7 +25,13 @@ def main():
     scratch = tempfile.mkdtemp(prefix="seedtest_")
     wt = os.path.join(scratch, "repo")
     out = {"property": prop, "dir": d}
+    here = HERE
     try:
+        # the machinery itself is copied too (with its Lean build): translators rewrite lean/N0Verif/Gen from the
+        # checkout under test, so several changes can be tried side by side without touching /verif
+        here = os.path.join(scratch, "verif")
+        rc, o = sh(["rsync", "-a", "--exclude", ".git", "--exclude", "seeded", "--exclude", "evidence", "--exclude", "replays", HERE + "/", here + "/"])
+        assert rc == 0, o
         rc, o = sh(["git", "-C", "/repo", "worktree", "add", "-q", "--detach", wt, "HEAD"])
         assert rc == 0, o
         demo = os.path.join(d, "demo.py")
@@ -48,7 +54,7 @@ def main():
         res = []
         for seed in seeds:
             env = dict(os.environ, VERIF_REPO=wt, VERIF_OUT=os.path.join(scratch, "out"), VERIF_SEED=str(seed))
-            rc, o = sh([os.path.join(HERE, "check"), prop, "--tier", tier], cwd=HERE, env=env, timeout=3600)
+            rc, o = sh([os.path.join(here, "check"), prop, "--tier", tier], cwd=here, env=env, timeout=3600)
             lines = [l for l in o.split("\n") if l.startswith("VIOLATION")]
             r = {"seed": seed, "rc": rc, "violation": lines[:1]}
             if lines:
@@ -70,8 +76,6 @@ def main():
         sh(["git", "-C", "/repo", "worktree", "remove", "--force", wt])
         shutil.rmtree(scratch, ignore_errors=True)
         sh(["git", "-C", "/repo", "worktree", "prune"])
-        # the translators rewrite lean/N0Verif/Gen/* from the scratch checkout: restore the committed files
-        sh(["git", "-C", HERE, "checkout", "--", "lean/N0Verif/Gen"])
 
 
 if __name__ == "__main__":
